@@ -25,6 +25,7 @@ import (
 
 	"github.com/hashicorp/hcl/v2"
 	"github.com/hashicorp/hcl/v2/hclsyntax"
+	hcljson "github.com/hashicorp/hcl/v2/json"
 	"github.com/zclconf/go-cty/cty"
 	"hclverif/hv"
 )
@@ -35,7 +36,8 @@ const fileName = "c19.hcl"
 
 // hit is one canary occurrence.
 type hit struct {
-	kind    string // canary-in-summary | canary-in-detail | canary-in-rendering | panic
+	kind    string // canary-in-summary | canary-in-detail | canary-in-rendering | panic, or a precise kind (classify.go)
+	kind0   string // the generic kind before classification
 	summary string
 	where   string // the offending text
 	canary  string
@@ -57,11 +59,11 @@ func checkDiags(diags hcl.Diagnostics, files map[string]*hcl.File, cans []string
 	for _, d := range diags {
 		inText := false
 		if c := findCanary(d.Summary, cans); c != "" {
-			hits = append(hits, hit{"canary-in-summary", d.Summary, d.Summary, c})
+			hits = append(hits, hit{kind: "canary-in-summary", summary: d.Summary, where: d.Summary, canary: c})
 			inText = true
 		}
 		if c := findCanary(d.Detail, cans); c != "" {
-			hits = append(hits, hit{"canary-in-detail", d.Summary, d.Detail, c})
+			hits = append(hits, hit{kind: "canary-in-detail", summary: d.Summary, where: d.Detail, canary: c})
 			inText = true
 		}
 		for _, cfg := range []struct {
@@ -70,14 +72,14 @@ func checkDiags(diags hcl.Diagnostics, files map[string]*hcl.File, cans []string
 		}{{80, false}, {0, false}, {80, true}, {0, true}} {
 			out, p := render(d, files, cfg.w, cfg.c)
 			if p != nil {
-				hits = append(hits, hit{"panic", d.Summary, fmt.Sprintf("text writer (width %d colour %v) panicked: %v", cfg.w, cfg.c, p), ""})
+				hits = append(hits, hit{kind: "panic", summary: d.Summary, where: fmt.Sprintf("text writer (width %d colour %v) panicked: %v", cfg.w, cfg.c, p)})
 				break
 			}
 			if inText {
 				continue // the rendering repeats summary and detail
 			}
 			if c := findCanary(out, cans); c != "" {
-				hits = append(hits, hit{"canary-in-rendering", d.Summary, out, c})
+				hits = append(hits, hit{kind: "canary-in-rendering", summary: d.Summary, where: out, canary: c})
 				break
 			}
 		}
@@ -93,18 +95,26 @@ func runCase(ci *caseInput) (diags hcl.Diagnostics, hits []hit, ok bool) {
 	src := []byte(ci.src)
 	if c := findCanary(ci.src, cans); c != "" {
 		// generator invariant: the source text never contains a canary
-		return nil, []hit{{"harness-canary-in-source", "", ci.src, c}}, false
+		return nil, []hit{{kind: "harness-canary-in-source", where: ci.src, canary: c}}, false
 	}
 	var files map[string]*hcl.File
 	func() {
 		defer func() {
 			if p := recover(); p != nil {
-				hits = append(hits, hit{"panic", "", fmt.Sprint(p), ""})
+				hits = append(hits, hit{kind: "panic", where: fmt.Sprint(p)})
 			}
 		}()
 		switch ci.mode {
 		case "expr":
 			expr, pd := hclsyntax.ParseExpression(src, fileName, hcl.InitialPos)
+			if pd.HasErrors() {
+				return
+			}
+			ok = true
+			files = map[string]*hcl.File{fileName: {Bytes: src}}
+			_, diags = expr.Value(ctx)
+		case "json":
+			expr, pd := hcljson.ParseExpression(src, fileName)
 			if pd.HasErrors() {
 				return
 			}
@@ -147,7 +157,7 @@ var corpus = []string{
 
 func run(cfg *hv.RunCfg) error {
 	rep := hv.NewReport("C19", cfg.Seed)
-	rep.Rule = "scope: hv.EvalGen scope (marks 0.35) + fixed sec* family (secrets top-level, nested in unmarked collections, inside marked collections, as keys of a marked map), every string/number/map key under a mark replaced by a fresh canary; expression: one of ~330 erroneous shapes in 10 categories (index, dupkey, cond, conv, null, names, args, iter, tmpl, objkey) with holes filled by references to secrets, 20% wrapped, 20% from the typed generator; modes expr (60%), hcldec.Decode of a body with a typed AttrSpec (20%), dynblock.Expand+Decode (20%); non-trivial = parses and yields at least one diagnostic; distinct by SHA-256 of the case text"
+	rep.Rule = "scope: hv.EvalGen scope (marks 0.35) + fixed sec* family (secrets top-level, nested in unmarked collections, inside marked collections, as keys of a marked map), every string/number/map key under a mark replaced by a fresh canary; expression: one of ~330 erroneous shapes in 10 categories (index, dupkey, cond, conv, null, names, args, iter, tmpl, objkey) with holes filled by references to secrets, 20% wrapped, 20% from the typed generator; modes expr (50%), JSON-syntax expression (template strings, objects with template keys, 10%), hcldec.Decode of a body with a typed AttrSpec (20%), dynblock.Expand+Decode (20%); hits are refined by classify.go into the three known mechanisms (for-binds-unmarked-elements, dynblock-iterator-unmarked, conversion-error-quotes-attribute-name) by re-evaluation / message shape, everything else keeps the generic kind; non-trivial = parses and yields at least one diagnostic; distinct by SHA-256 of the case text"
 	r := hv.NewRng(cfg.Seed, 1901)
 	rc := hv.NewRng(cfg.Seed, 1902) // calibration stream
 	cf := &hv.CaseFile{Dir: cfg.Out, Name: "leakcases",
@@ -168,6 +178,9 @@ func run(cfg *hv.RunCfg) error {
 			return
 		}
 		diags, hits, ok := runCase(back)
+		if ok {
+			hits = classify(back, hits, rep.Hist)
+		}
 		if !ok && len(hits) == 0 {
 			rep.Hist("parse-error")
 			rep.Count(text, false)
@@ -197,7 +210,7 @@ func run(cfg *hv.RunCfg) error {
 			rep.Hist("HITTEXT:" + h.kind + ":" + hitSkeleton(h, canaries(back.frames)))
 			f := hv.Failure{Kind: h.kind, Input: text,
 				Detail: fmt.Sprintf("diagnostic %q: canary %q found in: %s", h.summary, h.canary, h.where),
-				Extra:  map[string]string{"source": ci.src, "summary": h.summary, "canary": h.canary, "scope": dumpScope(back)}}
+				Extra:  map[string]string{"source": ci.src, "summary": h.summary, "canary": h.canary, "scope": dumpScope(back), "generic_kind": h.kind0}}
 			if old, ok := best[k]; !ok || len(ci.src) < len(old.Extra["source"]) {
 				best[k] = f
 			}
@@ -228,8 +241,11 @@ func run(cfg *hv.RunCfg) error {
 			ci, cg, n := newCase(r)
 			cat, e := cg.genExpr()
 			switch x := r.Intn(10); {
-			case x < 6:
+			case x < 5:
 				ci.src = e
+			case x < 6:
+				cat = "json/" + cat
+				genJSON(r, ci, cg, e)
 			case x < 8:
 				cat = "decode/" + cat
 				genDecode(r, ci, cg, e)
